@@ -97,7 +97,16 @@ def rule_p2(chk: Check, ix: Index, ir):
     chk.require(not bad, "P2-adjacency", "Parser.is_adjacent", f.where,
                 f"two pieces are one word exactly when the end (line, column) of the previous equals the start (line, column) of the next; "
                 f"differs on (previous kind, its end, next kind, its start, result) = {bad[:2]}")
-    g = ix.get("Parser._proc_args")
+    # the splitter: the generator `_proc_args`, or — when it has been folded into its only caller — `proc_args` itself, which
+    # then collects the words in a list it returns ("emit" is `yield stash` or `<that list>.append(stash)`)
+    g = ix.funcs.get("Parser._proc_args") or ix.get("Parser.proc_args")
+    emit_texts = ["yield stash"]
+    rets = [norm_stmt(s.value) for s in own_nodes(g.node) if isinstance(s, ast.Return) and s.value is not None]
+    if len(rets) == 1 and rets[0].isidentifier():
+        inits = [norm_stmt(s) for s in own_nodes(g.node) if isinstance(s, (ast.Assign, ast.AnnAssign)) and
+                 norm_stmt(s.targets[0] if isinstance(s, ast.Assign) else s.target) == rets[0]]
+        if len(inits) == 1 and inits[0].endswith(("= []", "= list()")):
+            emit_texts.append(f"{rets[0]}.append(stash)")
     loops = [n for n in own_nodes(g.node) if isinstance(n, ast.For)]
     chk.count("P2-adjacency")
     ok = len(loops) == 1 and norm_stmt(loops[0].iter) == "args"
@@ -119,7 +128,8 @@ def rule_p2(chk: Check, ix: Index, ir):
                     break
                 onto_none = appends[0] == f"stash = self._append_node_or_token(None, {var})" or \
                     ("stash = None" in eff and eff.index("stash = None") < eff.index(appends[0]))
-                emitted = "yield stash" in eff
+                emitted = any(t in eff for t in emit_texts)
+                emit_at = min((eff.index(t) for t in emit_texts if t in eff), default=-1)
                 # what the path knows
                 has_word = any((c in ("stash", "stash is not None") and t) or (c in ("not stash", "stash is None") and not t) or
                                (c.startswith("stash and ") and t) for c, t in conds)
@@ -130,7 +140,7 @@ def rule_p2(chk: Check, ix: Index, ir):
                 if emitted != (apart and not no_word):
                     why = f"under {conds} the word so far is {'emitted' if emitted else 'kept'}"
                     break
-                if emitted and (not onto_none or eff.index("yield stash") > eff.index(appends[0])):
+                if emitted and (not onto_none or emit_at > eff.index(appends[0])):
                     why = "after emitting a word the next one must start from nothing, and the emission comes first"
                     break
                 if not emitted and onto_none and not no_word:
@@ -142,7 +152,7 @@ def rule_p2(chk: Check, ix: Index, ir):
                     f"adjacent pieces are glued onto the current word; otherwise the word is emitted first and a new one started ({why})")
         chk.count("P2-adjacency")
         tail = [norm_stmt(s) for s in g.node.body if isinstance(s, ast.If)]
-        chk.require(any(t.startswith(("if stash: yield stash", "if stash is not None: yield stash")) for t in tail), "P2-adjacency",
+        chk.require(any(t.startswith(tuple(f"if {c}: {e}" for c in ("stash", "stash is not None") for e in emit_texts)) for t in tail), "P2-adjacency",
                     "Parser._proc_args:last", g.where, "the last word must be emitted after the loop")
     # hand-shifted start columns break positional adjacency
     from .c04 import rule_adjusted_location
